@@ -17,6 +17,9 @@ Mirrors, as the code is now:
 * `core/track.py`/`core/bbox.py` extent of a collection: minimum and maximum of the coordinates (modelled as a plain
   fold; the `±1e300` sentinels of `Operator.MIN/MAX` are not modelled)
 
+The `Raster` object itself (bands, `collectionValuesGrid`, sequences of `addAFMap` / `addCollectionToRaster` /
+`computeAggregates`) and `summarize` are in `Model/RasterSession.lean`.
+
 Scalars: `α` is any type with the arithmetic used (`Float` and `Rat` in the driver, a floor ring in the theorems);
 `floor`, `ceil : α → Int` are parameters. A feature value is an `Option α`, `none` standing for NaN. -/
 namespace TV.Raster
@@ -178,21 +181,6 @@ def cellValue (op : Op) (l : List (Option α)) : Option α :=
 /-- `computeAggregates` for one map: NaN is stored as the no-data value -/
 def aggregates (noData : α) (op : Op) (c : Cells (Option α)) : List (List α) :=
   c.map (fun row => row.map (fun cell => (cellValue op cell).getD noData))
-
-/-- `summarize` for one feature: grid geometry from the observations, scatter, one aggregate grid per operator.
-    `none` = Python raised. A grid without rows makes `AFMap.__init__` raise (`grid[0]`); since bdf8515 the
-    constructor never builds one (`nrow ≥ 1`), the test is kept because the code path is. -/
-def summarize (floor ceil : α → Int) (noData : α) (obs : List (α × α × Option α)) (rx ry margin : α) (ops : List Op) :
-    Option (Grid α × List (List (List α))) :=
-  match minOf (obs.map (·.1)), maxOf (obs.map (·.1)), minOf (obs.map (·.2.1)), maxOf (obs.map (·.2.1)) with
-  | some bx0, some bx1, some by0, some by1 =>
-    let g := mkGrid ceil bx0 bx1 by0 by1 rx ry margin
-    if g.nrow ≤ 0 then none
-    else
-      match scatter floor g (emptyCells g.nrow.toNat g.ncol.toNat) obs with
-      | none => none
-      | some c => some (g, ops.map (fun op => aggregates noData op c))
-  | _, _, _, _ => none
 
 end arith
 end TV.Raster
